@@ -151,7 +151,7 @@ type caseState struct {
 	viols []violation
 	nviol int64
 
-	callsOK, callsFailed, pushesSent, pushesOK, rawPushes, acceptAsked, bare, emptyReplies, idleTicks, beats int64
+	callsOK, callsFailed, pushesSent, pushesOK, rawPushes, acceptAsked, bare, emptyReplies, idleTicks, beats, accessorFans int64
 	failSamples                                                                                              []string
 	pushSeen                                                                                                 sync.Map
 	pushRecv                                                                                                 int64
@@ -233,6 +233,28 @@ func settings(cfg Config, kind, t string) []erpc.MessageSetting {
 func (cs *caseState) checkReply(kind, t string, cmd erpc.CallCmd, arg interface{}) {
 	if !tok.CanaryOK(arg) {
 		cs.report("sender-buffer-overwritten", kind, fmt.Sprintf("token %q: bytes beyond the body slice passed to the call were modified", t))
+	}
+	if cs.cfg.Soup {
+		// the accessors of a completed call are read from several goroutines at once (a caller handing the command to
+		// loggers / collectors), whether the call got a reply or failed without one
+		var awg sync.WaitGroup
+		for k := 0; k < 3; k++ {
+			awg.Add(1)
+			go func() {
+				defer awg.Done()
+				<-cmd.Done()
+				_, _ = cmd.Reply()
+				_ = cmd.InputMeta()
+				_ = cmd.InputBodyCodec()
+				_ = cmd.CostTime()
+				_ = cmd.StatusOK()
+				_ = cmd.Status()
+				_ = cmd.Output()
+				_ = cmd.Context()
+			}()
+		}
+		awg.Wait()
+		atomic.AddInt64(&cs.accessorFans, 1)
 	}
 	res, stat := cmd.Reply()
 	// the documented accessors of a completed call (each waits for Done)
@@ -601,6 +623,7 @@ func runCase(id string, cfg Config, r *core.Rand) {
 	core.Add("ok_calls_without_any_metadata", cs.bare)
 	core.Add("ok_calls_answered_with_the_empty_value", cs.emptyReplies)
 	core.Add("heartbeat_pings_received_between_user_messages", atomic.LoadInt64(&cs.beats))
+	core.Add("completed_calls_whose_accessors_were_read_by_3_goroutines", cs.accessorFans)
 	core.Add("pushes_received", atomic.LoadInt64(&cs.pushRecv))
 	core.Add("handler_invocations", mon.Handled)
 	core.Add("ctx_recycles_observed", mon.Recycles)
